@@ -19,7 +19,6 @@
 package iam
 
 import (
-	"bytes"
 	"context"
 	"crypto"
 	"errors"
@@ -173,6 +172,9 @@ func (j jar) validate(ctx context.Context, rawToken string, clientId string) (oa
 		return nil, oauth.OAuth2Error{Code: oauth.ServerError, Description: "failed to retrieve OpenID configuration", InternalError: err}
 	}
 
+	if configuration.JWKs == nil {
+		return nil, oauth.OAuth2Error{Code: oauth.InvalidRequestObject, Description: "client_id does not own signer key"}
+	}
 	key, exists := configuration.JWKs.LookupKeyID(signerKid)
 	if !exists {
 		return nil, oauth.OAuth2Error{Code: oauth.InvalidRequestObject, Description: "client_id does not own signer key"}
@@ -184,19 +186,16 @@ func (j jar) validate(ctx context.Context, rawToken string, clientId string) (oa
 }
 
 func compareThumbprint(configurationKey jwk.Key, publicKey crypto.PublicKey) error {
-	thumbprintLeft, err := configurationKey.Thumbprint(crypto.SHA256)
-	if err != nil {
+	// The key from the (remote) OpenID configuration is not to be trusted: the JWK library panics when asked for the thumbprint
+	// of a malformed EC key (coordinates that don't fit the curve). So compare the public keys themselves, which is equivalent.
+	var configurationPublicKey crypto.PublicKey
+	if err := configurationKey.Raw(&configurationPublicKey); err != nil {
 		return err
 	}
-	signerKey, err := jwk.FromRaw(publicKey)
-	if err != nil {
-		return err
-	}
-	thumbprintRight, err := signerKey.Thumbprint(crypto.SHA256)
-	if err != nil {
-		return err
-	}
-	if !bytes.Equal(thumbprintLeft, thumbprintRight) {
+	signerKey, ok := publicKey.(interface {
+		Equal(x crypto.PublicKey) bool
+	})
+	if !ok || !signerKey.Equal(configurationPublicKey) {
 		return errors.New("key thumbprints do not match")
 	}
 	return nil
